@@ -107,6 +107,7 @@ def specialise_new_defaults(P):
         # no call anywhere passes the new parameter(s)
         n_old = len(kpos) - (1 if f.cls is not None and "staticmethod" not in f.decos else 0)
         passed = False
+        redundant = []  # calls that pass the new parameter, but with the very default: the argument says nothing
         for g in P.funcs.values():
             for c in ast.walk(g.node):
                 if not isinstance(c, ast.Call):
@@ -114,10 +115,29 @@ def specialise_new_defaults(P):
                 nm = c.func.attr if isinstance(c.func, ast.Attribute) else (c.func.id if isinstance(c.func, ast.Name) else None)
                 if nm != f.name:
                     continue
-                if any(k.arg in extra or k.arg is None for k in c.keywords) or len(c.args) > n_old or any(isinstance(x, ast.Starred) for x in c.args):
+                if any(k.arg is None for k in c.keywords) or any(isinstance(x, ast.Starred) for x in c.args):
                     passed = True
+                    continue
+                for k in c.keywords:
+                    if k.arg in extra:
+                        if ast.dump(k.value) == ast.dump(dfl[k.arg]):
+                            redundant.append((c, k))
+                        else:
+                            passed = True
+                if len(c.args) > n_old:
+                    over = c.args[n_old:]
+                    names = extra_pos[:len(over)]
+                    if len(over) <= len(extra_pos) and all(ast.dump(a_) == ast.dump(dfl[n_]) for a_, n_ in zip(over, names)):
+                        redundant.append((c, None))
+                    else:
+                        passed = True
         if passed:
             continue
+        for c, k in redundant:
+            if k is None:
+                c.args = c.args[:n_old]
+            else:
+                c.keywords = [k2 for k2 in c.keywords if k2 is not k]
         sub = {x: dfl[x] for x in extra}
 
         class T(ast.NodeTransformer):
@@ -137,6 +157,34 @@ def specialise_new_defaults(P):
             f.kwonly = [k.arg for k in a.kwonlyargs]
         ast.fix_missing_locations(f.node)
         done.append((q, extra))
+    return done
+
+
+def restore_self(P):
+    """A known instance method that was turned into a @staticmethod (its body never used `self`): same parameters
+    minus the receiver, still called as `self.m(..)`.  On the analyser's copy it gets its receiver back, so that
+    the rules find the parameters where they were."""
+    done = []
+    for q, f in list(P.funcs.items()):
+        known = KNOWN_PARAMS.get(q)
+        if known is None or f.parent is not None or f.cls is None or f.module.is_tools:
+            continue
+        kpos = known[0]
+        if "staticmethod" not in f.decos or not kpos or kpos[0] != "self" or len(f.params) != len(kpos) - 1:
+            continue
+        if any(isinstance(n, ast.Name) and n.id == "self" for n in ast.walk(f.node)):
+            continue
+        # only receiver-style calls (`self.m(..)` / `obj.m(..)`), never `Class.m(..)`
+        clsname = f.cls.name
+        if any(isinstance(c, ast.Call) and isinstance(c.func, ast.Attribute) and c.func.attr == f.name and isinstance(c.func.value, ast.Name) and c.func.value.id == clsname
+               for g in P.funcs.values() for c in ast.walk(g.node)):
+            continue
+        f.node.decorator_list = [d for d in f.node.decorator_list if not (isinstance(d, ast.Name) and d.id == "staticmethod")]
+        f.decos = [d for d in f.decos if d != "staticmethod"]
+        f.node.args.args = [ast.arg(arg="self")] + f.node.args.args
+        f.params = ["self"] + f.params
+        ast.fix_missing_locations(f.node)
+        done.append(q)
     return done
 
 
